@@ -258,14 +258,16 @@ Proof.
     - destruct Hstar as [X0 [F1 F2]].
       pose proof (sql_select_star_rows fl true None None sfx (sel us S) S' us RS1 eq_refl Hsfx) as SR.
       rewrite F1, E2 in SR. congruence.
-    - intros IKu. rewrite <- (sql_select_local fl us true tms K sfx (sel us S) S' RS1 NE) in E1; [|intros k Ik; apply Hloc, IKu, Ik|exact Hsfx].
-      rewrite (Hex K NE NK IKu) in E1. congruence. }
+    - intros IKu.
+      assert (sql_select fl true (Some tms) (Some K) sfx (sel us S) = sql_select fl true (Some tms) (Some K) sfx S') as EL.
+      { apply (sql_select_local fl us); [exact RS1|exact NE| |exact Hsfx]. intros k Ik. apply Hloc, IKu, Ik. }
+      rewrite (Hex K NE NK IKu) in EL. congruence. }
   constructor.
   - exact ND.
   - exact Iu.
   - exact IuT.
   - intros K NE NK IK. rewrite qsem_unary, ES. apply Main; assumption.
-  - rewrite qsem_unary, ES. rewrite (sql_select_keys_eq fl true (Some tms) (Some []) (Some (map fst tms))) by (apply select_keys_own_nil, NT).
+  - rewrite qsem_unary, ES. rewrite (sql_select_keys_eq true (Some tms) (Some []) (Some (map fst tms))) by (apply select_keys_own_nil, NT).
     destruct (Main (map fst tms)) as [R [E1 [E2 _]]]; [destruct tms; [congruence|discriminate]|exact ND|apply incl_refl|].
     exists R. split; assumption.
   - intros n ts X. discriminate.
